@@ -99,7 +99,11 @@ def h_event(cfg):
 
     def sentinel(ev):
         dels.append(('s', step[0], env.now, 'ok' if ev.ok else 'exc', None, None))
-    E.callbacks.append(sentinel)
+    bare = bool(cfg.get('bare'))      # no probe callback on the event: its processing is polled after every kernel step
+    if not bare:
+        E.callbacks.append(sentinel)
+    else:
+        cover('observed-without-probes')
     regs.append(('s', -1, 0, False))
 
     def proc_waiter(i, catch):
@@ -130,7 +134,11 @@ def h_event(cfg):
     crash = None
     try:
         while env.peek() != INF:
-            env.step()
+            try:
+                env.step()
+            finally:
+                if bare and E.processed and not any(d[0] == 's' for d in dels):
+                    dels.append(('s', step[0], env.now, 'ok' if E.ok else 'exc', None, None))
             step[0] += 1
             if step[0] > 300:
                 fail('no-hang')
@@ -281,6 +289,9 @@ def jobs(tier, seed):
             sorts = ('int', 'real', 'mixed')[wi % 3]
             js.append({'harness': 'event', 'weight': 4 ** len(ws),
                        'cfg': {'target': target, 'waiters': ws, 'sorts': sorts}})
+            if wi % 2 == 1 and len(ws) <= 3:
+                js.append({'harness': 'event', 'weight': 4 ** len(ws),
+                           'cfg': {'target': target, 'waiters': ws, 'sorts': ('real', 'mixed', 'int')[wi % 3], 'bare': True}})
         if target in ('fail', 'child-raise'):
             for ws in ([P], [Pn, P], [P, Pn, P], [C, Pn]):
                 js.append({'harness': 'event', 'weight': 4 ** len(ws),
@@ -313,7 +324,7 @@ META = {
                         'c02.crash-at-failure-instant', 'c02.second-trigger-changes-nothing', 'c02.process-value',
                         'c02.processed-event-continues-at-once', 'c02.chain-value'],
     'required_covers': ['nontrivial', 'crash', 'handled-failure', 'late-yield', 'second-trigger-refused',
-                        'second-trigger-before-processing'],
+                        'second-trigger-before-processing', 'observed-without-probes'],
     'bounds': {'quick': 'one shared event or child process; <= 3 waiters (processes catching / not catching, plain callbacks) registering at '
                         'symbolic instants; second succeed/fail attempt (before and after the first is processed, and on a pending Timeout); chains of <= 3 already-processed events; values symbolic Int',
                'thorough': '<= 5 waiters; double triggers with 3 waiters'},
